@@ -67,6 +67,56 @@ func init() {
 				nNak++
 			}
 		}
+		// a capability the server withdrew (CAP DEL) is not reported as enabled until it is acknowledged again:
+		// judged on the real client's own state dumps
+		withdrawn := map[string]bool{}
+		di := 0
+		for _, s := range steps {
+			if s == "D" {
+				if di < len(cmp.ImplDump) && !sc.DisableTracking {
+					for _, l := range cmp.ImplDump[di] {
+						if strings.HasPrefix(l, "caps\x00") {
+							for _, en := range strings.Split(strings.TrimPrefix(l, "caps\x00"), "\x01") {
+								if en != "" && withdrawn[en] {
+									c.R.Violation("c08.del_ignored", hin, "enabled after CAP DEL: "+en+" (dump "+fmt.Sprint(di)+": "+strings.ReplaceAll(l, "\x01", " ")+")", "", "the enabled set changes only by ACK and DEL; a capability named in CAP DEL is no longer enabled")
+								}
+							}
+						}
+					}
+				}
+				di++
+				continue
+			}
+			if s[0] != 'R' {
+				continue
+			}
+			e := girc.ParseEvent(s[1:])
+			if e == nil || e.Command != "CAP" || len(e.Params) < 2 {
+				continue
+			}
+			names := func() []string {
+				var ns []string
+				for _, tok := range strings.Split(e.Last(), " ") {
+					if i := strings.IndexByte(tok, '='); i >= 0 {
+						tok = tok[:i]
+					}
+					if tok != "" {
+						ns = append(ns, tok)
+					}
+				}
+				return ns
+			}
+			switch {
+			case e.Params[1] == "DEL":
+				for _, n := range names() {
+					withdrawn[n] = true
+				}
+			case e.Params[1] == "ACK":
+				for _, n := range names() {
+					delete(withdrawn, strings.TrimPrefix(n, "-"))
+				}
+			}
+		}
 		nReq, nEnd, nAuth := 0, 0, 0
 		for _, l := range cmp.ImplW {
 			e := girc.ParseEvent(l)
